@@ -98,23 +98,65 @@ theorem EffJ.of_set {p : Prog} {s : State} (h : InvR p s) {x : Nat} {v0 : Int}
     rw [hj.srcSeen] at hsrc
     exact witness_new h cf.2.2.2.2.2.2.1 hsrc (by rw [sp.verx]; omega)
 
-/-! ## a generic invariant through the evaluation of an effect body -/
+/-! ## untracked reads inside an effect body -/
 
-theorem evalEff_gen {p : Prog} {u : State → Nat → State × Bool} {f : Nat} (hu : UpdOK p u f)
-    {e : Nat} (hef : e ≤ f) (F : Nat) (hF : p.length ≤ F) (Q : State → Prop)
-    (hread : ∀ s x, InvR p s → EffLoc s e → Q s → x < e → (s.get x).kind ≠ .eff →
-      Q (((readNode u s x).1.upd e fun n =>
-        { n with seen := n.seen ++ [(x, (readNode u s x).2, ((readNode u s x).1.get x).ver)] }).emit
-          (.rdv e x (readNode u s x).2)))
-    (hwrite : ∀ s x v0 v, InvR p s → EffLoc s e → Q s → p[x]? = some (.sig v0) →
-      Q (setSignal F s x v)) :
-    ∀ (ex : Expr) (s : State), InvR p s → EffLoc s e → Q s → ex.readsBelow e = true →
-      ex.noUntracked = true → ex.readsData p = true →
-      Q (evalE (readNode u) (setSignal F) e ex s).1
-  | .lit n, s, _, _, hq, _, _, _ => hq
-  | .rd tracked x, s, h, hl, hq, hb, hu', hd => by
-    simp only [Expr.noUntracked] at hu'
-    subst hu'
+theorem readEffU_cases {p : Prog} {u : State → Nat → State × Bool} {f : Nat} (hu : UpdOK p u f)
+    {e : Nat} (hef : e ≤ f) {s : State} (h : InvR p s) (hl : EffLoc s e) {x : Nat} (hx : x < e)
+    (hkx : (s.get x).kind ≠ .eff) :
+    ∃ s2 v ch, readNode u { s with obs := none } x = (s2, v) ∧
+      UpdPost p ({ s with obs := none } : State) x (s2, ch) := by
+  have hxe : x ≠ e := Nat.ne_of_lt hx
+  have hxnr : (s.get x).running = false := by
+    cases hr : (s.get x).running with
+    | false => rfl
+    | true => exact absurd (hl.only x hr) hxe
+  have h' : InvR p ({ s with obs := none } : State) := h.reobs rfl (fun o ho => by cases ho)
+  unfold readNode
+  have ht : track ({ s with obs := none } : State) x = { s with obs := none } := rfl
+  rw [ht]
+  simp only
+  cases hk : (({ s with obs := none } : State).get x).kind with
+  | eff => exact absurd hk hkx
+  | sig => exact ⟨_, _, false, rfl, UpdPost.refl h' (fun hk' => by rw [hk] at hk'; cases hk')⟩
+  | memo =>
+    simp only
+    have hp := hu ({ s with obs := none } : State) x h' (by omega) hxnr
+      (fun r hr => by rw [hl.only r hr]; exact hx)
+    generalize u ({ s with obs := none } : State) x = r at hp
+    obtain ⟨s2, ch⟩ := r
+    exact ⟨s2, _, ch, rfl, hp⟩
+
+/-- the state after an untracked read, with the observer restored -/
+theorem readEffU_spec {p : Prog} {u : State → Nat → State × Bool} {f : Nat} (hu : UpdOK p u f)
+    {e : Nat} (hef : e ≤ f) {s : State} (h : InvR p s) (hl : EffLoc s e) {x : Nat} (hx : x < e)
+    (hkx : (s.get x).kind ≠ .eff) :
+    InvR p ({ (readNode u { s with obs := none } x).1 with obs := s.obs }) ∧
+    EffLoc ({ (readNode u { s with obs := none } x).1 with obs := s.obs }) e := by
+  obtain ⟨s2, v, ch, hrd, up⟩ := readEffU_cases hu hef h hl hx hkx
+  rw [hrd]
+  simp only
+  have hrunE : ∀ i, (s2.get i).running = (s.get i).running := up.running
+  have hkE : ∀ i, (s2.get i).kind = (s.get i).kind := up.frame.kind
+  refine ⟨up.inv.reobs rfl (fun o ho => ?_), hl.obs, (hkE e).trans hl.kind, (hrunE e).trans hl.running,
+    fun r hr => hl.only r (by rw [← hrunE]; exact hr)⟩
+  rw [hl.obs] at ho
+  have : o = e := (Option.some.inj ho).symm
+  subst this
+  exact (hrunE o).trans hl.running
+
+/-- effect bodies read smaller data nodes (tracked or not); they may write signals -/
+def EffOKU (p : Prog) : Prop :=
+  ∀ (e : Nat) (b : Expr), p[e]? = some (NodeDef.eff b) →
+    b.readsBelow e = true ∧ b.readsData p = true
+
+theorem evalEff_specU {p : Prog} {u : State → Nat → State × Bool} {f : Nat} (hu : UpdOK p u f)
+    {e : Nat} (hef : e ≤ f) (F : Nat) (hF : p.length ≤ F) :
+    ∀ (ex : Expr) (s : State), InvR p s → EffLoc s e → ex.readsBelow e = true →
+      ex.readsData p = true →
+      InvR p (evalE (readNode u) (setSignal F) e ex s).1 ∧
+      EffLoc (evalE (readNode u) (setSignal F) e ex s).1 e
+  | .lit n, s, h, hl, _, _ => ⟨h, hl⟩
+  | .rd tracked x, s, h, hl, hb, hd => by
     simp only [Expr.readsBelow, decide_eq_true_eq] at hb
     have hkx : (s.get x).kind ≠ .eff := by
       simp only [Expr.readsData] at hd
@@ -123,36 +165,116 @@ theorem evalEff_gen {p : Prog} {u : State → Nat → State × Bool} {f : Nat} (
       | some d =>
         rw [h.kind x d hpx]
         cases d <;> simp_all [kindOf]
-    simp only [evalE, if_true]
-    exact hread s x h hl hq hb hkx
-  | .add a b, s, h, hl, hq, hb, hu', hd => by
-    simp only [Expr.readsBelow, Expr.noUntracked, Expr.readsData, Bool.and_eq_true] at hb hu' hd
-    obtain ⟨h1, l1⟩ := evalEff_spec hu hef F hF a s h hl hb.1 hu'.1 hd.1
-    have q1 := evalEff_gen hu hef F hF Q hread hwrite a s h hl hq hb.1 hu'.1 hd.1
+    cases tracked with
+    | true =>
+      have := readEff_spec hu hef h hl hb hkx (fun v _ => .rdv e x v)
+      simp only [evalE, if_true]
+      exact this
+    | false =>
+      have := readEffU_spec hu hef h hl hb hkx
+      simp only [evalE, Bool.false_eq_true, if_false]
+      exact this
+  | .add a b, s, h, hl, hb, hd => by
+    simp only [Expr.readsBelow, Expr.readsData, Bool.and_eq_true] at hb hd
+    obtain ⟨h1, l1⟩ := evalEff_specU hu hef F hF a s h hl hb.1 hd.1
     simp only [evalE]
-    exact evalEff_gen hu hef F hF Q hread hwrite b _ h1 l1 q1 hb.2 hu'.2 hd.2
-  | .mulc k a, s, h, hl, hq, hb, hu', hd => by
-    simp only [Expr.readsBelow, Expr.noUntracked, Expr.readsData] at hb hu' hd
+    exact evalEff_specU hu hef F hF b _ h1 l1 hb.2 hd.2
+  | .mulc k a, s, h, hl, hb, hd => by
+    simp only [Expr.readsBelow, Expr.readsData] at hb hd
     simp only [evalE]
-    exact evalEff_gen hu hef F hF Q hread hwrite a s h hl hq hb hu' hd
-  | .ite c t el, s, h, hl, hq, hb, hu', hd => by
-    simp only [Expr.readsBelow, Expr.noUntracked, Expr.readsData, Bool.and_eq_true] at hb hu' hd
-    obtain ⟨h1, l1⟩ := evalEff_spec hu hef F hF c s h hl hb.1.1 hu'.1.1 hd.1.1
-    have q1 := evalEff_gen hu hef F hF Q hread hwrite c s h hl hq hb.1.1 hu'.1.1 hd.1.1
+    exact evalEff_specU hu hef F hF a s h hl hb hd
+  | .ite c t el, s, h, hl, hb, hd => by
+    simp only [Expr.readsBelow, Expr.readsData, Bool.and_eq_true] at hb hd
+    obtain ⟨h1, l1⟩ := evalEff_specU hu hef F hF c s h hl hb.1.1 hd.1.1
     simp only [evalE]
     split
-    · exact evalEff_gen hu hef F hF Q hread hwrite t _ h1 l1 q1 hb.1.2 hu'.1.2 hd.1.2
-    · exact evalEff_gen hu hef F hF Q hread hwrite el _ h1 l1 q1 hb.2 hu'.2 hd.2
-  | .seq a b, s, h, hl, hq, hb, hu', hd => by
-    simp only [Expr.readsBelow, Expr.noUntracked, Expr.readsData, Bool.and_eq_true] at hb hu' hd
-    obtain ⟨h1, l1⟩ := evalEff_spec hu hef F hF a s h hl hb.1 hu'.1 hd.1
-    have q1 := evalEff_gen hu hef F hF Q hread hwrite a s h hl hq hb.1 hu'.1 hd.1
+    · exact evalEff_specU hu hef F hF t _ h1 l1 hb.1.2 hd.1.2
+    · exact evalEff_specU hu hef F hF el _ h1 l1 hb.2 hd.2
+  | .seq a b, s, h, hl, hb, hd => by
+    simp only [Expr.readsBelow, Expr.readsData, Bool.and_eq_true] at hb hd
+    obtain ⟨h1, l1⟩ := evalEff_specU hu hef F hF a s h hl hb.1 hd.1
     simp only [evalE]
-    exact evalEff_gen hu hef F hF Q hread hwrite b _ h1 l1 q1 hb.2 hu'.2 hd.2
-  | .wr x a, s, h, hl, hq, hb, hu', hd => by
-    simp only [Expr.readsBelow, Expr.noUntracked, Expr.readsData, Bool.and_eq_true] at hb hu' hd
-    obtain ⟨h1, l1⟩ := evalEff_spec hu hef F hF a s h hl hb hu' hd.2
-    have q1 := evalEff_gen hu hef F hF Q hread hwrite a s h hl hq hb hu' hd.2
+    exact evalEff_specU hu hef F hF b _ h1 l1 hb.2 hd.2
+  | .wr x a, s, h, hl, hb, hd => by
+    simp only [Expr.readsBelow, Expr.readsData, Bool.and_eq_true] at hb hd
+    obtain ⟨h1, l1⟩ := evalEff_specU hu hef F hF a s h hl hb hd.2
+    simp only [evalE]
+    generalize evalE (readNode u) (setSignal F) e a s = r at h1 l1
+    obtain ⟨s1, v⟩ := r
+    simp only at h1 l1 ⊢
+    cases hpx : p[x]? with
+    | none => rw [hpx] at hd; simp at hd
+    | some d =>
+      cases d with
+      | memo _ => rw [hpx] at hd; simp at hd
+      | eff _ => rw [hpx] at hd; simp at hd
+      | sig v0 =>
+        obtain ⟨h2, sp⟩ := setSignal_inv h1 hpx v (f := F) (by rw [h1.len]; exact hF)
+        refine ⟨h2, sp.obs.trans l1.obs, by rw [sp.kind]; exact l1.kind, by rw [sp.running]; exact l1.running, ?_⟩
+        intro r hr
+        rw [sp.running] at hr
+        exact l1.only r hr
+
+/-! ## a generic invariant through the evaluation of an effect body -/
+
+theorem evalEff_gen {p : Prog} {u : State → Nat → State × Bool} {f : Nat} (hu : UpdOK p u f)
+    {e : Nat} (hef : e ≤ f) (F : Nat) (hF : p.length ≤ F) (Q : State → Prop)
+    (hread : ∀ s x, InvR p s → EffLoc s e → Q s → x < e → (s.get x).kind ≠ .eff →
+      Q (((readNode u s x).1.upd e fun n =>
+        { n with seen := n.seen ++ [(x, (readNode u s x).2, ((readNode u s x).1.get x).ver)] }).emit
+          (.rdv e x (readNode u s x).2)))
+    (huread : ∀ s x, InvR p s → EffLoc s e → Q s → x < e → (s.get x).kind ≠ .eff →
+      Q ({ (readNode u { s with obs := none } x).1 with obs := s.obs }))
+    (hwrite : ∀ s x v0 v, InvR p s → EffLoc s e → Q s → p[x]? = some (.sig v0) →
+      Q (setSignal F s x v)) :
+    ∀ (ex : Expr) (s : State), InvR p s → EffLoc s e → Q s → ex.readsBelow e = true →
+      ex.readsData p = true →
+      Q (evalE (readNode u) (setSignal F) e ex s).1
+  | .lit n, s, _, _, hq, _, _ => hq
+  | .rd tracked x, s, h, hl, hq, hb, hd => by
+    simp only [Expr.readsBelow, decide_eq_true_eq] at hb
+    have hkx : (s.get x).kind ≠ .eff := by
+      simp only [Expr.readsData] at hd
+      cases hpx : p[x]? with
+      | none => rw [hpx] at hd; cases hd
+      | some d =>
+        rw [h.kind x d hpx]
+        cases d <;> simp_all [kindOf]
+    cases tracked with
+    | true =>
+      simp only [evalE, if_true]
+      exact hread s x h hl hq hb hkx
+    | false =>
+      simp only [evalE, Bool.false_eq_true, if_false]
+      exact huread s x h hl hq hb hkx
+  | .add a b, s, h, hl, hq, hb, hd => by
+    simp only [Expr.readsBelow, Expr.readsData, Bool.and_eq_true] at hb hd
+    obtain ⟨h1, l1⟩ := evalEff_specU hu hef F hF a s h hl hb.1 hd.1
+    have q1 := evalEff_gen hu hef F hF Q hread huread hwrite a s h hl hq hb.1 hd.1
+    simp only [evalE]
+    exact evalEff_gen hu hef F hF Q hread huread hwrite b _ h1 l1 q1 hb.2 hd.2
+  | .mulc k a, s, h, hl, hq, hb, hd => by
+    simp only [Expr.readsBelow, Expr.readsData] at hb hd
+    simp only [evalE]
+    exact evalEff_gen hu hef F hF Q hread huread hwrite a s h hl hq hb hd
+  | .ite c t el, s, h, hl, hq, hb, hd => by
+    simp only [Expr.readsBelow, Expr.readsData, Bool.and_eq_true] at hb hd
+    obtain ⟨h1, l1⟩ := evalEff_specU hu hef F hF c s h hl hb.1.1 hd.1.1
+    have q1 := evalEff_gen hu hef F hF Q hread huread hwrite c s h hl hq hb.1.1 hd.1.1
+    simp only [evalE]
+    split
+    · exact evalEff_gen hu hef F hF Q hread huread hwrite t _ h1 l1 q1 hb.1.2 hd.1.2
+    · exact evalEff_gen hu hef F hF Q hread huread hwrite el _ h1 l1 q1 hb.2 hd.2
+  | .seq a b, s, h, hl, hq, hb, hd => by
+    simp only [Expr.readsBelow, Expr.readsData, Bool.and_eq_true] at hb hd
+    obtain ⟨h1, l1⟩ := evalEff_specU hu hef F hF a s h hl hb.1 hd.1
+    have q1 := evalEff_gen hu hef F hF Q hread huread hwrite a s h hl hq hb.1 hd.1
+    simp only [evalE]
+    exact evalEff_gen hu hef F hF Q hread huread hwrite b _ h1 l1 q1 hb.2 hd.2
+  | .wr x a, s, h, hl, hq, hb, hd => by
+    simp only [Expr.readsBelow, Expr.readsData, Bool.and_eq_true] at hb hd
+    obtain ⟨h1, l1⟩ := evalEff_specU hu hef F hF a s h hl hb hd.2
+    have q1 := evalEff_gen hu hef F hF Q hread huread hwrite a s h hl hq hb hd.2
     simp only [evalE]
     generalize evalE (readNode u) (setSignal F) e a s = r at h1 l1 q1
     obtain ⟨s1, v⟩ := r
@@ -181,7 +303,8 @@ structure QJ (s : State) (e : Nat) : Prop where
 theorem readEff_cases {p : Prog} {u : State → Nat → State × Bool} {f : Nat} (hu : UpdOK p u f)
     {e : Nat} (hef : e ≤ f) {s : State} (h : InvR p s) (hl : EffLoc s e) {x : Nat} (hx : x < e)
     (hkx : (s.get x).kind ≠ .eff) :
-    ∃ s1 s2 v ch, readNode u s x = (s2, v) ∧ TrackPost s s1 e x ∧ InvR p s1 ∧ UpdPost p s1 x (s2, ch) := by
+    ∃ s1 s2 v ch, readNode u s x = (s2, v) ∧ TrackPost s s1 e x ∧ InvR p s1 ∧ UpdPost p s1 x (s2, ch) ∧
+      (s2.get x).st = .clean ∧ (s2.get x).val = some v := by
   have he : e < s.nodes.length := s.lt_of_running hl.running
   have hxe : x ≠ e := Nat.ne_of_lt hx
   have t := track_post hl.obs he hx
@@ -196,7 +319,11 @@ theorem readEff_cases {p : Prog} {u : State → Nat → State × Bool} {f : Nat}
   cases hk : (s1.get x).kind with
   | eff => rw [t.kind] at hk; exact absurd hk hkx
   | sig =>
-    exact ⟨s1, s1, _, false, rfl, t, h1, UpdPost.refl h1 (fun hk' => by rw [hk] at hk'; cases hk')⟩
+    have hxp : x < p.length := by rw [← h.len]; omega
+    have hs := h1.sigOk x hxp hk
+    obtain ⟨v, hv⟩ := hs.2.2
+    exact ⟨s1, s1, _, false, rfl, t, h1, UpdPost.refl h1 (fun hk' => by rw [hk] at hk'; cases hk'),
+      hs.1, by rw [hv]; rfl⟩
   | memo =>
     simp only
     have hp := hu s1 x h1 (by omega) (by rw [t.running]; exact hxnr) (by
@@ -205,7 +332,12 @@ theorem readEff_cases {p : Prog} {u : State → Nat → State × Bool} {f : Nat}
       rw [hl.only r hr]; exact hx)
     generalize u s1 x = r at hp
     obtain ⟨s2, ch⟩ := r
-    exact ⟨s1, s2, _, ch, rfl, t, h1, hp⟩
+    have hxp : x < p.length := by rw [← h.len]; omega
+    have hc := hp.clean hk
+    obtain ⟨v, hv⟩ := hp.inv.clean_val hxp (by rw [hp.frame.kind, hk]; simp) hc
+    exact ⟨s1, s2, _, ch, rfl, t, h1, hp, hc, by
+      show (s2.get x).val = some ((s2.get x).val.getD 0)
+      rw [hv]; rfl⟩
 
 theorem hreadJ {p : Prog} {u : State → Nat → State × Bool} {f : Nat} (hu : UpdOK p u f)
     {e : Nat} (hef : e ≤ f) (s : State) (x : Nat) (h : InvR p s) (hl : EffLoc s e) (hq : QJ s e)
@@ -213,7 +345,7 @@ theorem hreadJ {p : Prog} {u : State → Nat → State × Bool} {f : Nat} (hu : 
     QJ (((readNode u s x).1.upd e fun n =>
         { n with seen := n.seen ++ [(x, (readNode u s x).2, ((readNode u s x).1.get x).ver)] }).emit
           (.rdv e x (readNode u s x).2)) e := by
-  obtain ⟨s1, s2, v, ch, hrd, t, h1, up⟩ := readEff_cases hu hef h hl hx hkx
+  obtain ⟨s1, s2, v, ch, hrd, t, h1, up, _, _⟩ := readEff_cases hu hef h hl hx hkx
   rw [hrd]
   simp only
   have hxe : x ≠ e := Nat.ne_of_lt hx
@@ -299,6 +431,27 @@ theorem hreadJ {p : Prog} {u : State → Nat → State × Bool} {f : Nat} (hu : 
     have l2 := up.frame.log l1
     subst hs3
     exact LogOK.emit (s := s2.upd e _) l2 (by intro i; simp)
+
+theorem hureadJ {p : Prog} {u : State → Nat → State × Bool} {f : Nat} (hu : UpdOK p u f)
+    {e : Nat} (hef : e ≤ f) (s : State) (x : Nat) (h : InvR p s) (hl : EffLoc s e) (hq : QJ s e)
+    (hx : x < e) (hkx : (s.get x).kind ≠ .eff) :
+    QJ ({ (readNode u { s with obs := none } x).1 with obs := s.obs }) e := by
+  obtain ⟨s2, v, ch, hrd, up⟩ := readEffU_cases hu hef h hl hx hkx
+  rw [hrd]
+  simp only
+  have h' : InvR p ({ s with obs := none } : State) := h.reobs rfl (fun o ho => by cases ho)
+  have fr : Frame s ({ s2 with obs := s.obs } : State) (x + 1) :=
+    ((Frame.of_nodes (x + 1) rfl rfl : Frame s ({ s with obs := none } : State) (x + 1)).trans
+      up.frame).trans (Frame.of_nodes (x + 1) rfl rfl)
+  have hcore := fr.effCore e hl.kind
+  have cf := Node.core_fields hcore
+  refine ⟨hq.others.of_frame h fr, ⟨by rw [cf.2.2.1, cf.2.2.2.2.2.2.1]; exact hq.self.srcSeen, ?_,
+    by rw [cf.2.2.2.2.1]; exact hq.self.noFirst⟩, fr.log hq.log⟩
+  intro hd
+  rcases fr.effD e hl.kind hd with h1 | ⟨y, hy, hv⟩
+  · exact witness_mono h cf.2.2.2.2.2.2.1 fr.verMono (hq.self.dirtyJ h1)
+  · rw [hq.self.srcSeen] at hy
+    exact witness_new h cf.2.2.2.2.2.2.1 hy hv
 
 theorem hwriteJ {p : Prog} {e : Nat} (F : Nat) (hF : p.length ≤ F) (s : State) (x : Nat) (v0 v : Int)
     (h : InvR p s) (hl : EffLoc s e) (hq : QJ s e) (hx : p[x]? = some (.sig v0)) :
@@ -491,7 +644,7 @@ theorem noteRun_log_ok {s : State} {id : Nat} (hl : LogOK s) (hj : justified s i
   · cases hi
 
 theorem effRun_specJ {p : Prog} {f : Nat} (hu : UpdOK p (upd p f) f) (hf : p.length < f)
-    (hpe : EffOK p) {s : State} {e : Nat} (h : TopJ p s) (hk : (s.get e).kind = .eff)
+    (hpe : EffOKU p) {s : State} {e : Nat} (h : TopJ p s) (hk : (s.get e).kind = .eff)
     (hd : (s.get e).dirty = false)
     (hj : (s.get e).runs ≠ 0 → ∃ z ∈ (s.get e).seen, (s.get z.1).ver ≠ z.2.2) :
     TopJ p (effRun p f s e none) ∧ ((effRun p f s e none).get e).kind = .eff := by
@@ -596,13 +749,14 @@ theorem effRun_specJ {p : Prog} {f : Nat} (hu : UpdOK p (upd p f) f) (hf : p.len
     | memo b => rw [hp] at this; cases this
   have hbody := hpe e b hb
   have hbo : bodyOf p e = b := by simp only [bodyOf, hb]
-  have ev := evalEff_spec hu (by omega) f (by omega) (bodyOf p e) s4 h4 l4
-    (by rw [hbo]; exact hbody.1) (by rw [hbo]; exact hbody.2.1) (by rw [hbo]; exact hbody.2.2)
+  have ev := evalEff_specU hu (by omega) f (by omega) (bodyOf p e) s4 h4 l4
+    (by rw [hbo]; exact hbody.1) (by rw [hbo]; exact hbody.2)
   have evq := evalEff_gen hu (e := e) (by omega) f (by omega) (fun s => QJ s e)
     (fun s x h' hl' hq' hx hkx => hreadJ hu (by omega) s x h' hl' hq' hx hkx)
+    (fun s x h' hl' hq' hx hkx => hureadJ hu (by omega) s x h' hl' hq' hx hkx)
     (fun s x v0 v h' hl' hq' hx => hwriteJ f (by omega) s x v0 v h' hl' hq' hx)
     (bodyOf p e) s4 h4 l4 q4
-    (by rw [hbo]; exact hbody.1) (by rw [hbo]; exact hbody.2.1) (by rw [hbo]; exact hbody.2.2)
+    (by rw [hbo]; exact hbody.1) (by rw [hbo]; exact hbody.2)
   generalize evalE (readNode (upd p f)) (setSignal f) e (bodyOf p e) s4 = r at ev evq
   obtain ⟨s8, v⟩ := r
   simp only at ev evq ⊢
@@ -665,7 +819,7 @@ theorem TopJ.flagEff' {p : Prog} {s : State} (h : TopJ p s) {e : Nat} (hk : (s.g
     (fun n hf => by rw [← (gc n).2.2.2.2.2.2.2.2]; exact hf)
 
 theorem effLoop_specJ {p : Prog} {f : Nat} (hu : UpdOK p (upd p f) f) (hf : p.length < f)
-    (hpe : EffOK p) (e : Nat) : ∀ (k : Nat) (s : State), TopJ p s → (s.get e).kind = .eff →
+    (hpe : EffOKU p) (e : Nat) : ∀ (k : Nat) (s : State), TopJ p s → (s.get e).kind = .eff →
       TopJ p (effLoop p f k s e)
   | 0, s, h, _ => h
   | k + 1, s, h, hk => by
@@ -702,7 +856,7 @@ theorem effLoop_specJ {p : Prog} {f : Nat} (hu : UpdOK p (upd p f) f) (hf : p.le
           exact effLoop_specJ hu hf hpe e k _ q4 hk4
         · exact effLoop_specJ hu hf hpe e k _ q3 hk3'
 
-theorem pollEff_specJ {p : Prog} (hp : MemoOK p) (hpe : EffOK p) {s : State} {e : Nat} (h : TopJ p s)
+theorem pollEff_specJ {p : Prog} (hp : MemoOK p) (hpe : EffOKU p) {s : State} {e : Nat} (h : TopJ p s)
     (hk : (s.get e).kind = .eff) : TopJ p (pollEff p s e) := by
   unfold pollEff
   obtain ⟨q1, hk1⟩ := h.flagEff' hk (fun n => { n with woken := false })
@@ -714,7 +868,7 @@ theorem pollEff_specJ {p : Prog} (hp : MemoOK p) (hpe : EffOK p) {s : State} {e 
       (fun _ => ⟨rfl, rfl, rfl, rfl, rfl, rfl, rfl, rfl, rfl⟩)).1
   · exact effLoop_specJ (upd_ok hp (fuelFor p)) (by simp [fuelFor]) hpe e 64 s1 q1 hk1
 
-theorem pollNth_specJ {p : Prog} (hp : MemoOK p) (hpe : EffOK p) {s : State} (h : TopJ p s) (i : Nat) :
+theorem pollNth_specJ {p : Prog} (hp : MemoOK p) (hpe : EffOKU p) {s : State} (h : TopJ p s) (i : Nat) :
     TopJ p (pollNth p s i) := by
   unfold pollNth
   simp only
@@ -731,7 +885,7 @@ theorem pollNth_specJ {p : Prog} (hp : MemoOK p) (hpe : EffOK p) {s : State} (h 
     rw [List.getD_eq_getElem?_getD, List.getElem?_eq_getElem hlt]
     exact List.getElem_mem hlt
 
-theorem runIdle_specJ {p : Prog} (hp : MemoOK p) (hpe : EffOK p) :
+theorem runIdle_specJ {p : Prog} (hp : MemoOK p) (hpe : EffOKU p) :
     ∀ (k : Nat) (s : State), TopJ p s → TopJ p (runIdle p k s)
   | 0, _, h => h
   | k + 1, s, h => by
@@ -751,7 +905,7 @@ theorem init_topJ (p : Prog) : TopJ p (initState p) := by
   have := init_fields p i
   exact ⟨by rw [this.1, this.2.2.1]; rfl, fun _ hr => absurd this.2.2.2.2.1 hr, fun _ => this.2.2.2.2.1⟩
 
-theorem step_topJ {p : Prog} (hp : MemoOK p) (hpe : EffOK p) {s : State}
+theorem step_topJ {p : Prog} (hp : MemoOK p) (hpe : EffOKU p) {s : State}
     (h : TopJ p s) (o : Op) : TopJ p (step p s o).1 := by
   cases o with
   | set id v =>
@@ -808,7 +962,7 @@ theorem step_topJ {p : Prog} (hp : MemoOK p) (hpe : EffOK p) {s : State}
       · exact q
     · exact h
 
-theorem run_topJ {p : Prog} (hp : MemoOK p) (hpe : EffOK p) (ops : List Op) : TopJ p (run p ops) := by
+theorem run_topJ {p : Prog} (hp : MemoOK p) (hpe : EffOKU p) (ops : List Op) : TopJ p (run p ops) := by
   unfold run
   suffices ∀ s, TopJ p s → TopJ p (ops.foldl (fun s o => (step p s o).1) s) from
     this _ (init_topJ p)
@@ -816,9 +970,108 @@ theorem run_topJ {p : Prog} (hp : MemoOK p) (hpe : EffOK p) (ops : List Op) : To
   | nil => intro s h; exact h
   | cons o ops ih => intro s h; exact ih _ (step_topJ hp hpe h o)
 
-/-- **C09**: no memo or effect body ever runs unjustified (tracked reads only) -/
-theorem no_unjust {p : Prog} (hwf : WF p = true) (ht : bodiesTracked p = true) (ops : List Op) :
+/-- **C09**: no memo or effect body ever runs unjustified -/
+theorem effOKU_of_wf {p : Prog} (hwf : WF p = true) : EffOKU p := by
+  intro e b hb
+  have hw := WF_get hwf hb
+  simp only [wfNode, Bool.and_eq_true] at hw
+  exact ⟨hw.1, hw.2⟩
+
+theorem no_unjust {p : Prog} (hwf : WF p = true) (ops : List Op) :
     ∀ i, Ev.unjust i ∉ (run p ops).log :=
-  (run_topJ (memoOK_of_wf hwf ht) (effOK_of_wf hwf ht) ops).log
+  (run_topJ (memoOK_of_wf hwf) (effOKU_of_wf hwf) ops).log
+
+/-! ## untracked reads: the value of a memo is its body at current tracked values and a snapshot -/
+
+theorem run_quietU {p : Prog} (hwf : WF p = true) (ops : List Op) : Quiet p (run p ops) :=
+  (run_topJ (memoOK_of_wf hwf) (effOKU_of_wf hwf) ops).quiet
+
+/-- reading a clean data node returns its cached value -/
+theorem read_clean_val {p : Prog} {s : State} (h : Quiet p s) {x : Nat} {v : Int}
+    (hk : (s.get x).kind ≠ .eff) (hc : (s.get x).st = .clean) (hv : (s.get x).val = some v) :
+    (step p s (.read x)).2 = some v := by
+  have htrack : track s x = s := by unfold track; rw [h.obs]
+  simp only [step]
+  unfold readNode
+  rw [htrack]
+  simp only
+  cases hkx : (s.get x).kind with
+  | eff => exact absurd hkx hk
+  | sig => simp only [hv, Option.getD_some]
+  | memo =>
+    simp only
+    have e1 : upd p (fuelFor p) s x = (s.upd x fun n => { n with st := .clean }, false) := by
+      show upd p (p.length + 1) s x = _
+      rw [upd_succ]
+      have hk' : ((s.get x).kind != .memo) = false := by rw [hkx]; rfl
+      rw [hk']
+      simp only [Bool.false_eq_true, if_false, hc]
+    have e2 : (s.upd x fun n => { n with st := .clean }) = s := by
+      apply State.upd_eq_self
+      have : s.get x = { s.get x with st := (s.get x).st } := rfl
+      rw [hc] at this; exact this.symm
+    rw [e1, e2]
+    simp only [hv, Option.getD_some]
+
+/-- **C01, untracked reads**: the value returned by a read of memo `m` is its body evaluated with
+every tracked read replaced by what a read of that node returns right afterwards, and the
+untracked reads replaced by some snapshot `U` (the values they had when the memo last ran) -/
+theorem read_snapshot {p : Prog} (hwf : WF p = true) (ops : List Op) (m : Nat) (b : Expr)
+    (hb : p[m]? = some (.memo b)) :
+    ∃ U : List Int, (step p (run p ops) (.read m)).2 =
+      some (evalSnap (fun x => ((step p (step p (run p ops) (.read m)).1 (.read x)).2).getD 0) b U).1 := by
+  have hq := run_quietU hwf ops
+  generalize run p ops = s at hq
+  have hk : (s.get m).kind = .memo := hq.inv.kind m _ hb
+  have hm : m < p.length := hq.inv.memo_lt hk
+  have htrack : track s m = s := by unfold track; rw [hq.obs]
+  have post := upd_ok (memoOK_of_wf hwf) (fuelFor p) s m hq.inv (by simp only [fuelFor]; omega)
+    (hq.idle m) (fun r hr => by rw [hq.idle r] at hr; cases hr)
+  have hstep : step p s (.read m) =
+      ((upd p (fuelFor p) s m).1, some (((upd p (fuelFor p) s m).1.get m).val.getD 0)) := by
+    simp only [step]
+    unfold readNode
+    rw [htrack]
+    simp only [hk]
+  rw [hstep]
+  generalize upd p (fuelFor p) s m = r at post
+  obtain ⟨s', ch⟩ := r
+  simp only at post ⊢
+  have hq' : Quiet p s' := ⟨post.inv, fun i => (post.running i).trans (hq.idle i)⟩
+  have hk' : (s'.get m).kind = .memo := by rw [post.frame.kind]; exact hk
+  have hc : (s'.get m).st = .clean := post.clean hk
+  have hnd : (s'.get m).st ≠ .dirty := by rw [hc]; simp
+  obtain ⟨U, hU⟩ := post.inv.replay m hk' (hq'.idle m) hnd
+  have hbo : bodyOf p m = b := by simp only [bodyOf, hb]
+  rw [hbo] at hU
+  refine ⟨U, ?_⟩
+  have hcons : ∀ z ∈ (s'.get m).seen,
+      ((step p s' (.read z.1)).2).getD 0 = z.2.1 := by
+    intro z hz
+    have hsrc : z.1 ∈ (s'.get m).sources := by
+      rw [post.inv.srcSeen m hk' (hq'.idle m)]; exact List.mem_map_of_mem hz
+    have hdat := post.inv.srcData m z.1 hsrc
+    have hlt := post.inv.srcLt m z.1 hsrc
+    have hcl : (s'.get z.1).st = .clean := by
+      cases hkz : (s'.get z.1).kind with
+      | eff => exact absurd hkz hdat
+      | sig => exact (post.inv.sigOk z.1 (by omega) hkz).1
+      | memo =>
+        cases hs1 : (s'.get z.1).st with
+        | clean => rfl
+        | check =>
+          exact absurd hc (post.inv.closed z.1 m hkz (by rw [hs1]; simp)
+            ((post.inv.edge z.1 m).2 hsrc) hk')
+        | dirty =>
+          exact absurd hc (post.inv.closed z.1 m hkz (by rw [hs1]; simp)
+            ((post.inv.edge z.1 m).2 hsrc) hk')
+    have hval : (s'.get z.1).val = some z.2.1 := by
+      rcases post.inv.srcVal m hk' (hq'.idle m) hnd z hz with h1 | h1
+      · rw [hq'.idle z.1] at h1; cases h1
+      · exact h1
+    rw [read_clean_val hq' hdat hcl hval]; rfl
+  have := hU (fun x => ((step p s' (.read x)).2).getD 0) hcons
+  simp only at this
+  rw [this]; rfl
 
 end Leptos.Reactive
